@@ -1588,7 +1588,12 @@ pub fn case_c13(tier: &str, seed: u64, case: u64) -> CaseResult {
 	for run in 0..runs {
 		let mut rr = rng.fork(&format!("pool13-{}", run));
 		let ops = gen_ops_c13(&mut rr, thorough);
-		let (v, digest, log, steps) = run_ops(&mut world, start, &ops, &format!("pool13-c{}r{}", case, run), Some(&mut res));
+		// every other run over the node's real p2p stack (the adapter chooses the header the pool judges against)
+		let mode = if run % 2 == 1 { Mode::Net { with_relay: run % 4 == 1 } } else { Mode::Direct };
+		if mode != Mode::Direct {
+			res.probe("netsim_runs");
+		}
+		let (v, digest, log, steps) = run_ops_mode(&mut world, start, &ops, &format!("pool13-c{}r{}", case, run), Some(&mut res), mode);
 		res.runs += 1;
 		res.steps += steps;
 		res.run_digests.push((digest, true));
@@ -1604,7 +1609,7 @@ pub fn case_c13(tier: &str, seed: u64, case: u64) -> CaseResult {
 				res.violations.push(Violation {
 					key: v.key.replace("C14:submit-result:", "C13:pool-answer:"),
 					what: format!("pool clause: {}", v.what),
-					replay: json!({"engine": "poolsim", "property": "C13", "case_seed": seed, "ops": serde_json::to_value(&ops).unwrap(), "log": log.iter().rev().take(6).cloned().collect::<Vec<_>>()}),
+					replay: json!({"engine": "poolsim", "property": "C13", "case_seed": seed, "mode": mode.name(), "ops": serde_json::to_value(&ops).unwrap(), "log": log.iter().rev().take(6).cloned().collect::<Vec<_>>()}),
 				});
 				break;
 			} else {
